@@ -460,6 +460,15 @@ pub fn consistent_scripts(b: &[u8], lay: &Layout) -> Vec<(String, Vec<Edit>)> {
             }
             out.push((format!("context: field modulus replaced by {what} (shortest encoding, length fixed)"), vec![Edit::Set { off: *lo, len: *ll, value: low.len() as u64 }, Edit::Splice { off: *ps, remove: n, insert: low.clone() }]));
         }
+        // the moduli of the three supported fields: a proof that claims another field than the computation's
+        for (what, m) in [("the 62-bit field's modulus", 4611624995532046337u128), ("the 64-bit field's modulus", 18446744069414584321u128), ("the 128-bit field's modulus", 340282366920938463463374557953744961537u128)] {
+            let full = m.to_le_bytes();
+            let len = if m < (1u128 << 64) { 8 } else { 16 };
+            let v = full[..len].to_vec();
+            if v != b[*ps..*pe] {
+                out.push((format!("context: field modulus replaced by {what}"), vec![Edit::Set { off: *lo, len: *ll, value: len as u64 }, Edit::Splice { off: *ps, remove: n, insert: v }]));
+            }
+        }
         out.push(("context: field modulus of length 0".into(), vec![Edit::Set { off: *lo, len: *ll, value: 0 }, Edit::Splice { off: *ps, remove: n, insert: vec![] }]));
         out.push(("context: field modulus of 255 bytes".into(), vec![Edit::Set { off: *lo, len: *ll, value: 255 }, Edit::Splice { off: *ps, remove: n, insert: vec![0xffu8; 255] }]));
     }
